@@ -6,6 +6,8 @@ import DefraModel.Restart
 For the persisted-state / cache model (`DefraModel/Restart.lean`) and every history of operations:
 
 * `run_coherent` — after every history the in-memory state is exactly what start-up would rebuild from the store;
+* `open_on_store_copy_is_the_running_node` — a node opened on the store contents as of any completed operation is in
+  the state of the running node;
 * `restart_invisible` — a restart anywhere in a history changes nothing: the node state (store and memory, hence
   every later observation and the outcome of every later operation) equals that of the history without it;
   `restarts_invisible` — the same for any number of restarts;
@@ -30,6 +32,13 @@ theorem run_coherent (ops : List Op) : Coherent (run ops) := by
   induction ops generalizing n with
   | nil => exact h0
   | cons op t ih => exact ih _ (step_coherent n op h0)
+
+/-- **Opening the store contents as of any completed operation.** After every history, what start-up rebuilds from
+    the store is exactly the in-memory state of the running node — so a second node opened on a copy of the store taken
+    after any completed operation is in the state of the node that keeps running (the `crashcopy` operation of the
+    engine compares exactly this on the implementation). -/
+theorem open_on_store_copy_is_the_running_node (ops : List Op) : load (run ops).store = (run ops).mem :=
+  (run_coherent ops).symm
 
 /-- on a coherent node a restart is the identity -/
 theorem restart_noop (n : Node) (h : Coherent n) : step n .restart = n := by
